@@ -341,3 +341,52 @@ Proof.
   intros a p x y Hx Hy. rewrite decode_block_nth by assumption. split; [apply texel_alpha|].
   intros a'. rewrite decode_block_nth by assumption. reflexivity.
 Qed.
+
+(* ---------------- layout and channels combined (payload bytes below 256) ---------------- *)
+Lemma element_bound bpe data i : wfb data -> element bpe data i < 256 ^ bpe.
+Proof.
+  intros H. unfold element.
+  set (l := firstn (N.to_nat bpe) (skipn (N.to_nat (i * bpe)) data)).
+  assert (W : wfb l) by (apply wfb_firstn, wfb_skipn, H).
+  pose proof (dec_le_bound l W) as B.
+  assert (L : N.of_nat (length l) <= bpe) by (unfold l; rewrite firstn_length; lia).
+  eapply N.lt_le_trans; [exact B|]. apply N.pow_le_mono_r; lia.
+Qed.
+
+Lemma listed_pow fmt : listed_color_format fmt = true -> 256 ^ bytes_per_element fmt = 2 ^ (8 * bytes_per_element fmt).
+Proof. intros Hf. apply listed_cases in Hf. destruct Hf as [->|[->|[->|[->|[->|[->| ->]]]]]]; reflexivity. Qed.
+
+Theorem color_pixel_ok : forall m fmt w h data X Y,
+  listed_color_format fmt = true -> w mod 8 = 0 -> h mod 8 = 0 -> w * h < 2 ^ 32 ->
+  lenN data = bytes_per_element fmt * (w * h) -> wfb data -> X < w -> Y < h ->
+  exists px c, decode_pixel_data m data w h fmt = Ok (flatten px) /\ length px = N.to_nat (w * h) /\
+    nth_error px (N.to_nat (Y * w + X)) = Some c /\
+    color_ok fmt (element (bytes_per_element fmt) data (tiled_index w X Y)) c = true.
+Proof.
+  intros m fmt w h data X Y Hf Hw Hh Hsz Hlen Wf HX HY.
+  destruct (color_pixel_source m fmt w h data X Y Hf Hw Hh Hsz Hlen HX HY) as (px & E & L & _ & Hn).
+  exists px. eexists. split; [exact E|]. split; [exact L|]. split; [exact Hn|].
+  apply channels_all; [exact Hf|]. rewrite <- listed_pow by exact Hf. apply element_bound. exact Wf.
+Qed.
+
+Lemma be16_at_bound data i : wfb data -> be16_at data i < 65536.
+Proof.
+  intros H. unfold be16_at.
+  assert (B : forall k, nth k data 0 < 256).
+  { intros k. destruct (nth_in_or_default k data 0) as [Hin|E]; [|rewrite E; lia]. unfold wfb in H. rewrite Forall_forall in H. apply H, Hin. }
+  pose proof (B (N.to_nat (2 * i))). pose proof (B (N.to_nat (2 * i + 1))). lia.
+Qed.
+
+Theorem palette_pixel_ok : forall pal_data img w h,
+  1 <= w -> 1 <= h -> lenN img = align8 w * align4 h -> lenN pal_data mod 2 = 0 -> wfb pal_data ->
+  (forall x y, x < w -> y < h -> nth (N.to_nat (ci8_index w x y)) img 0 < lenN pal_data / 2) ->
+  exists px, tpl_ci8_image pal_data img w h = Ok (flatten px) /\ length px = N.to_nat (w * h) /\
+    forall x y, x < w -> y < h -> exists c,
+      nth_error px (N.to_nat (y * w + x)) = Some c /\
+      rgb5a3_ok (be16_at pal_data (nth (N.to_nat (ci8_index w x y)) img 0)) c = true.
+Proof.
+  intros pal_data img w h Hw Hh Hlen Hpal Wf Hidx.
+  destruct (palette_image_source pal_data img w h Hw Hh Hlen Hpal Hidx) as (px & E & L & Hn).
+  exists px. split; [exact E|]. split; [exact L|]. intros x y Hx Hy. eexists. split; [apply Hn; assumption|].
+  apply rgb5a3_all. apply be16_at_bound. exact Wf.
+Qed.
